@@ -123,3 +123,38 @@ CLAIMED = {
          "well-formedness preserved along every history, zero removes a sparse entry, dense and sparse driven by the same history agree. Excluded and named: the two dense advanced-indexing forms and the sparse read with a repeated list entry (known findings), forms the class itself refuses, and right-hand sides that fit only after NumPy broadcasting",
          _NOTE + "; NumPy basic / advanced indexing and assignment broadcasting are model primitives", "DESIGN.md 7 (C04)"),
 }
+
+
+# --- session-5 extensions (appended; the tuples above are kept as they were) -------------------------------------
+def _ext(pid, more=None, note_old=None, note_new=None):
+    tech, text, note, ref = CLAIMED[pid]
+    if more:
+        text = text.rstrip(". ") + ". " + more
+    if note_old and note_old in note:
+        note = note.replace(note_old, note_new)
+    CLAIMED[pid] = (tech, text, note, ref)
+
+
+_ext("C02", "Since session 5 also proved for all inputs: tensor.ttsv (both algorithm versions, every skip_dim, all orders and sizes, "
+     "result kinds, rejections, versions agree - after two repairs of the default version found through the model), the Tucker "
+     "kernels innerprod / norm / mttkrp with a SPARSE core (every operand kind, both sides of the size switches; equal to the "
+     "dense-core kernels on the expanded core), and the reject branches of get_mttkrp_factors and of the Kruskal / Tucker / sum "
+     "kernels (97 theorems)")
+_ext("C06", "Since session 5: the remaining sptenmat operations (copy, unary +/-, __setitem__ with repeated cells and zero values, "
+     "double, full, norm, nnz, isequal, to_sptensor) are modelled with well-formedness and order-independence theorems for every key "
+     "and value (five genuine defects found through them were repaired in /repo), the sparse subtensor returned by a region READ is "
+     "proved well-formed, sptensor.copy is modelled (91 theorems)",
+     "; copy, __deepcopy__ and the sptenmat unary / from_array helpers are checked on the implementation only",
+     "; sptenmat.from_array is checked on the implementation only")
+_ext("C08", "Since session 5: score is proved to RETURN a full matching on every admissible request (greedy loop invariant; score value = "
+     "mean of the matched congruences; non-greedy requests rejected), fixsigns(reference) reaches its alignment normal form (at most one "
+     "negatively correlated mode per component, none when their number is even; optimal among tensor-preserving flips) and is idempotent, "
+     "normalize() is idempotent with NF as its fixed points, arranging by p then q is arranging by the composition (60 theorems)")
+_ext("C15", "Since session 5 the Kruskal clauses 'an already symmetric tensor keeps its value' (component-wise symmetric normalised copy, "
+     "any order and parity, zero weights / columns; corollary from the un-normalised input with lawful services), 'symmetrising again "
+     "changes nothing' (same array) and invariance of the result array under every mode permutation are proved (28 theorems)")
+_ext("C18", "Since session 5 whole-run theorems on the concrete models: relabelling the modes of data, guess and mode order relabels the "
+     "result of cp_als (same decisions, fits and iteration count; factor lists under the stated parity condition of fixsigns, with a "
+     "counterexample outside it = known finding F18-fixsigns-relabel), of hosvd and of tucker_als; scaling the data scales the Tucker-ALS "
+     "core and leaves factors, fits and the stop iteration unchanged (nvecs contract stated without reference to scaling; determinacy "
+     "of the leading eigenvectors is a hypothesis on the first run) (50 theorems)")
